@@ -1,4 +1,5 @@
 import MiniconfVerif.Lemmas.Factor
+import MiniconfVerif.Lemmas.TextKeys
 import MiniconfVerif.Lemmas.Chain
 import MiniconfVerif.Props.C09
 
@@ -9,9 +10,9 @@ sources of Model/Keys.lean.  Proved: chaining = concatenation; every traversal (
 factors through an index path with exactly one callback per consumed key; every target is a
 function of that path only (so all keys of one node are interchangeable for every
 representation), the index form is the position tuple, the packed form decodes back to the
-node, re-transcoding is a fixpoint.  The *text* forms (`Path`, `JsonPath`: rendering then
-splitting and looking the names up again) are covered by C15's splitter theorems plus the
-correspondence runs; their end-to-end round trip is not a theorem here. -/
+node, re-transcoding is a fixpoint.  The text forms: `path_text_roundtrip` and `jsonpath_text_roundtrip`
+(render along the node path, split with the iterators of C15, look the names / decimal indices up
+again — the same walk as the position tuple). -/
 namespace MiniconfVerif.C04
 open MiniconfVerif
 
@@ -119,6 +120,26 @@ theorem packed_form_resolves (s : Schema) (hwf : s.WF) (hsm : s.Small) (hmax : s
     exact (Prod.mk.inj this).2.symm
   refine ⟨p, t, w, h1, by rw [h2, htg], hw1, ?_⟩
   exact C09.decode s t hwf hsm p h1 hmax w hw1 s.maxDepth (2 ^ 64 - 1) (Nat.le_refl _) har
+
+/-- **Separator paths**: transcoding a node's position tuple into a `Path` (any separator that
+does not occur in a key text on the way, enough capacity) yields the text `S key S key …`; read
+back as a `Path` key it drives every traversal — hence every by-key operation and every further
+transcoding — exactly as the position tuple does. -/
+theorem path_text_roundtrip {σ : Type} (cb : σ → CbArg → Option σ) (s t : Schema) (hwf : s.WF) (hsm : s.Small)
+    (S : Char) (cap : Nat) (p : List Nat) (ht : s.at? p = some t) (hfree : ∀ k ∈ keyTexts s p, S ∉ k)
+    (hcap : PathIter.byteLen (renderPath S (keyTexts s p)) ≤ cap) (st : σ) :
+    tgtAt s (.path S [] cap) p = .path S (renderPath S (keyTexts s p)) cap ∧
+    s.traverse cb (TreeDriver.pathKeys S (renderPath S (keyTexts s p))) st = s.traverse cb (.list (intKeys p)) st :=
+  path_roundtrip cb s t hwf hsm S cap p ht hfree hcap st
+
+/-- **JSON-style paths**: the same for the `JsonPath` target (`.name` / `[index]`), for key texts
+free of the four delimiter characters -/
+theorem jsonpath_text_roundtrip {σ : Type} (cb : σ → CbArg → Option σ) (s t : Schema) (hwf : s.WF) (hsm : s.Small)
+    (cap : Nat) (p : List Nat) (ht : s.at? p = some t) (hfree : ∀ k ∈ keyTexts s p, PathIter.DelimFree k)
+    (hcap : PathIter.byteLen (PathIter.renderAll (jsonKeysOf s p)) ≤ cap) (st : σ) :
+    tgtAt s (.json [] cap) p = .json (PathIter.renderAll (jsonKeysOf s p)) cap ∧
+    s.traverse cb (TreeDriver.jsonKeys (PathIter.renderAll (jsonKeysOf s p))) st = s.traverse cb (.list (intKeys p)) st :=
+  jsonpath_roundtrip cb s t hwf hsm cap p ht hfree hcap st
 
 /-! ## non-vacuity -/
 def ex : Schema := .node (.named ["foo", "bar"]) [.leaf, .array 3 .leaf]
